@@ -6,25 +6,39 @@
 (*   kind "opt": every option tuple graph x num_work_wires x max_expansion *)
 (*               x custom decompositions x stopping condition, with what   *)
 (*               DecompModel promises for it (relation, TypeError,         *)
-(*               whether the gate-set clause applies).                     *)
+(*               whether the gate-set clause applies);                     *)
+(*   kind "dev": every call shape of devices.preprocess.decompose          *)
+(*               graph x skip_initial_state_prep x leading state           *)
+(*               preparation (none / BasisState / StatePrep, accepted by   *)
+(*               the stopping condition or not) x remaining operators      *)
+(*               (none / all accepted / some rejected) with what           *)
+(*               DecompModel promises (leading operator kept, something    *)
+(*               must be decomposed or an error raised).                   *)
 (* TLC checks the classification invariants; the driver replays the        *)
 (* product (sampled in the quick tier) into the real transform.            *)
 (***************************************************************************)
 EXTENDS DecompModel, TLC, Json
 Universe == {"RX", "RY", "RZ", "Hadamard", "CNOT", "CZ"}
 USeq == <<"RX", "RY", "RZ", "Hadamard", "CNOT", "CZ">>
-VARIABLES kind, S, gp, c, pc
-vars == <<kind, S, gp, c, pc>>
+VARIABLES kind, S, gp, c, d, pc
+vars == <<kind, S, gp, c, d, pc>>
 NoCfg == [graph |-> FALSE, gs |-> <<>>, ww |-> 0, mx |-> 0 - 1, custom |-> "none", stopk |-> 0]
+NoDev == [graph |-> FALSE, skip |-> TRUE, lead |-> "none", leadok |-> FALSE, rest |-> "empty"]
 Init == /\ pc = "new"
-        /\ \/ /\ kind = "set" /\ S \in SUBSET Universe /\ gp \in BOOLEAN /\ c = NoCfg
-           \/ /\ kind = "opt" /\ S = {} /\ gp = FALSE
+        /\ \/ /\ kind = "set" /\ S \in SUBSET Universe /\ gp \in BOOLEAN /\ c = NoCfg /\ d = NoDev
+           \/ /\ kind = "dev" /\ S = {} /\ gp = FALSE /\ c = NoCfg
+              /\ d \in {x \in [graph : BOOLEAN, skip : BOOLEAN, lead : DevLeads, leadok : BOOLEAN, rest : DevRests] :
+                            x.lead = "none" => ~x.leadok}
+           \/ /\ kind = "opt" /\ S = {} /\ gp = FALSE /\ d = NoDev
               /\ c \in [graph : BOOLEAN, gs : {<<>>}, ww : {0 - 1, 0, 1, 2}, mx : {0 - 1, 1, 2},
                         custom : {"none", "fixed", "alt", "nullphase"}, stopk : {0, 2}]
 AsSeq(T) == SelectSeq(USeq, LAMBDA x : x \in T) \o (IF gp THEN <<"GlobalPhase">> ELSE <<>>)
-Emit == /\ pc = "new" /\ pc' = "done" /\ UNCHANGED <<kind, S, gp, c>>
+Emit == /\ pc = "new" /\ pc' = "done" /\ UNCHANGED <<kind, S, gp, c, d>>
         /\ IF kind = "set"
            THEN PrintT(ToJson([kind |-> "set", gs |-> AsSeq(S), universal |-> Universal(S), gp |-> gp]))
+           ELSE IF kind = "dev"
+           THEN PrintT(ToJson([kind |-> "dev", graph |-> d.graph, skip |-> d.skip, lead |-> d.lead, leadok |-> d.leadok, rest |-> d.rest,
+                               keep |-> DevPrepKept(d), mustchange |-> DevMustChange(d)]))
            ELSE PrintT(ToJson([kind |-> "opt", graph |-> c.graph, ww |-> c.ww, mx |-> c.mx, custom |-> c.custom, stopk |-> c.stopk,
                                rel |-> Rel(c), typeerror |-> ExpectTypeError(c), clause |-> GateSetClause(c)]))
 Next == Emit
@@ -38,4 +52,9 @@ OptOK == kind = "opt" =>
    /\ (ExpectTypeError(c) <=> (~c.graph /\ c.custom \in {"fixed", "alt", "nullphase"}))
    /\ (Rel(c) = "phase" <=> c.custom = "nullphase")
    /\ (GateSetClause(c) <=> c.mx = 0 - 1)
+\* a call may hand its input back only when the stopping condition accepts everything but an exempted leading preparation
+DevOK == kind = "dev" =>
+   /\ (~DevMustChange(d) <=> ((d.lead = "none" \/ d.skip \/ d.leadok) /\ d.rest # "mixed"))
+   /\ (DevPrepKept(d) => d.lead # "none")
+   /\ ((d.lead # "none" /\ ~d.skip /\ ~d.leadok) => DevMustChange(d) /\ ~DevPrepKept(d))
 =============================================================================
